@@ -276,12 +276,21 @@ func run(c Case) pbt.Verdict {
 
 func TestProp(t *testing.T) {
 	pbt.Main(t, pbt.Spec{
-		ID: "C18",
+		ID:   "C18",
 		Rule: "rapid generates timelines over one agent scheduler (owned event loop, mock clock): a blob that is either already cached (seeding) or being downloaded (leeching), seeder/leecher idle limits 2-8 s, steps from {fake peer requests a piece and reads+closes the payload, fake peer delivers a missing piece, clock advance 0-5 s, preemption tick, another Download, apply a held completion notice}; a piece that completes the torrent may leave the completion notice pending (held), so ticks can hit a torrent that is complete while its requester is still waiting. Model from the statement: last-served and last-received start at torrent creation; a tick drops the torrent iff complete and now-lastServed >= seeder limit, or in progress and now-lastReceived >= leecher limit; LastReadTime/LastWriteTime must equal the model after every step; a dropped in-progress torrent leaves no archive entry or partial file; a completed blob stays byte-identical in the cache whatever is dropped. non-trivial = a tick is judged after at least one piece was served or received; distinct by case hash",
 		Assumptions: []string{
 			"piece activity is produced through a fake peer attached to the dispatcher; it reads and closes served payloads as conn.Conn does",
 			"ticks are applied by the harness (the real ticker loop is not started); the clock only moves when the case says so",
 		},
-		Parts: []pbt.Part{pbt.NewPart("timeline", 1, gen, run)},
+		Parts: []pbt.Part{pbt.NewPart("timeline", 1, gen, func(c Case) pbt.Verdict { return conclusive(run(c)) })},
 	})
+}
+
+// conclusive turns a verdict of a run in which the harness could not get a call into the
+// event loop within a minute (machine too busy) into a discard.
+func conclusive(v pbt.Verdict) pbt.Verdict {
+	if schedh.TakeInconclusive() {
+		return pbt.Verdict{Discard: true, Classes: []string{"call-did-not-reach-the-loop-in-60s"}}
+	}
+	return v
 }
